@@ -495,6 +495,21 @@ func runC14(p *core.Prog, r *core.Report) {
 				}
 			}
 			r.Check(okAll, "C14-R3", "Status reports buffered lengths plus the held-task counter on every path", p.FuncPos(t.Status), "the pending value is, on every path, a sum that includes the counter load", whyP)
+			// the bound laneSize×(queueSize+1) speaks of the queueSize the caller passed: the buffers have exactly that capacity
+			{
+				var bad []string
+				n := 0
+				for _, mc := range t.ElemChans {
+					if t.elemField[mc] != t.Buffered {
+						continue
+					}
+					n++
+					if _, isParam := t.canonCount(mc.Size).(*ssa.Parameter); !isParam {
+						bad = append(bad, "the lane buffers are made with capacity "+short(sx.ValPath(mc.Size))+" at "+p.Pos(mc.Pos())+", not with the constructor's queue-size parameter")
+					}
+				}
+				r.Check(len(bad) == 0 && n > 0, "C14-R3", "lane buffers have exactly the capacity the constructor was given", p.FuncPos(t.Ctor), "make(chan Task, queueSize) with the parameter itself", strings.Join(bad, "; ")+": accepted-but-not-started tasks can exceed laneSize×(queueSize+1) and QueueSize no longer describes the lanes")
+			}
 		}
 	}
 }
